@@ -117,3 +117,12 @@ claim("C10", "field-write discipline + linear-use dataflow + who-may-call rules 
       "beyond these APIs is not decided.",
       "trusted: rustc MIR, fact dumper; assumes TextSpan::take slices exactly the addressed text and Vec::extend/push append in order",
       "DESIGN.md section 4, C10")
+claim("C11", "path rules on MIR: must-pass-through inside loops, control dependence on kind-equality tests, option-flag gating",
+      "The formatter's tree walk formats every child (or skips a zero-width one); format_terminal formats both trivia lists and emits the "
+      "token unless should_skip_terminal holds; format_trivia matches every trivium kind, each comment kind reaches push_comment with the "
+      "trivium's text and skipped tokens/nodes are emitted; should_skip_terminal can return true only under an equality test of the node's "
+      "kind with TerminalComma, TerminalEmpty, TerminalSemicolon or TerminalColonColon; use-merging and sorting are called only under their "
+      "configuration flags; nodes with ignored formatting keep their original text." + DECIDES +
+      " Idempotence and re-parsability of the output (line-breaking search) are not decided.",
+      "trusted: rustc MIR, fact dumper; assumes LineBuilder::push_str/push_comment append their argument",
+      "DESIGN.md section 4, C11")
